@@ -68,10 +68,13 @@ type TagScanner struct {
 	Records []TagRecord
 }
 
-func NewTagScanner(h *Handle, tag string) *TagScanner {
+func NewTagScanner(h *Handle, tag, nodeType string) *TagScanner {
+	if nodeType == "" {
+		nodeType = "Custom_" + tag
+	}
 	return &TagScanner{
 		DefaultTagScanDefinitionRegistryPostProcessor: processors.DefaultTagScanDefinitionRegistryPostProcessor{
-			NodeType: component_definition.PropertyType("Custom_" + tag),
+			NodeType: component_definition.PropertyType(nodeType),
 			Tag:      tag,
 		},
 		H: h,
